@@ -191,8 +191,8 @@ template<typename E> struct MkMU { typedef StdUMap<E> T; static T make(int id) {
 template<typename E, typename MS, typename MD, bool node>
 static void std_map_scenario(Report& rep, const char* name, uint64_t seed, int srcId, int dstId)
 {
-	// default nested settings (extra check = assertion): a functor that throws inside the debug-only extra check is an
-	// assertion failure by momo's design (see NOTES.md), so functor failures are not injected here
+	// default nested settings (extra check = assertion): functor failures are injected too since b307610 made the
+	// debug-only extra check tolerate a throwing functor
 	enumerate_all(rep, name, [&] (int kind, long k) -> bool
 	{
 		Rnd r(seed);
@@ -239,7 +239,7 @@ static void std_map_scenario(Report& rep, const char* name, uint64_t seed, int s
 		for (const auto& p : dst) if (dst.find(p.first) == dst.end()) { rep.fail(tag + ": destination key not findable"); break; }
 		dst.emplace(E(99990001), E(1)); src.emplace(E(99990002), E(2));
 		return f;
-	}, false);
+	}, true);
 }
 
 static const char* SCEN[] = {
